@@ -9,13 +9,7 @@ VERIF = os.path.dirname(os.path.dirname(os.path.abspath(__file__)))
 sys.path.insert(0, VERIF)
 
 ALL = ["C%02d" % i for i in range(1, 21)]
-NA = {
-    "C17": "Exhaustive equality between index arithmetic on runtime flow lengths and Python slicing "
-           "(xs[start:stop:step], sliding windows, fill_into stop points): its truth lies in integer values along "
-           "loops, not in the shape of the code; deciding it needs symbolic execution or enumeration, which are other "
-           "technique families. The few shape clauses (step rejected at construction, LenaStopFill only in the "
-           "StopIteration handler) are too small a part of the statement to call the property decided.",
-}
+NA = {}
 
 checks = []
 not_applicable = []
